@@ -42,6 +42,9 @@ def state(vals, tag_i):
 
 def ok_state(vals, tag_i) -> bool:
     st = state(vals, tag_i)
+    # week 53 under WW/0W/UU/0U is C02's known finding (the part recogniser stops at 52); not re-reported here
+    if ("week_w" in FS and vals["week_w"] == 53) or ("week_u" in FS and vals["week_u"] == 53):
+        return False
     if rm.omitted(AST, st):
         return False
     if "pytag" in FS and "num" in FS and st["tag"] == "final" and st["num"] != 0:
